@@ -3,7 +3,12 @@ from props.common import bj, HEAP_ASSUMPTIONS
 
 LEVEL = 'other'
 CONTRACT_MODULES = ['contracts.c_heap']
-DEDUCTIVE = [{'fid': 'odml/property.py::BaseProperty.clone', 'mode': 'heap'}]
+DEDUCTIVE = [{'fid': 'odml/property.py::BaseProperty.clone', 'mode': 'heap'},
+             {'fid': 'odml/section.py::BaseSection.new_id', 'mode': 'heap'},
+             {'fid': 'odml/property.py::BaseProperty.new_id', 'mode': 'heap'},
+             {'fid': 'odml/doc.py::BaseDocument.new_id', 'mode': 'heap'}]
+# new_id is what clone() calls on every copied object: it must change the id and nothing else
+OBLIGATION_FILTER = {'include': [r'clone#', r'new_id#modifies', r'new_id#ensures', r'new_id#raises']}
 TIMEOUT_S = 20
 REPLAY = 'heap'
 ASSUMPTIONS = HEAP_ASSUMPTIONS + [
@@ -12,7 +17,7 @@ ASSUMPTIONS = HEAP_ASSUMPTIONS + [
     'Section/Document clone (recursive, loops that modify the heap), export_leaf and the value-list independence are '
     'decided by the bounded stand-in only',
 ]
-EXPLANATION = 'deductive: BaseProperty.clone returns a new detached Property (parent None, same name, new value list object, id kept iff keep_id, otherwise a canonical uuid), modifies no object that existed before the call, and the heap with the copy satisfies Inv; bounded stand-in: clone/export_leaf/values contracts (equal, detached, nothing shared, ids fresh or kept, edits do not propagate) checked at run time'
+EXPLANATION = 'deductive: BaseProperty.clone returns a new detached Property (parent None, same name, new value list object, id kept iff keep_id, otherwise a canonical uuid), modifies no object that existed before the call, and the heap with the copy satisfies Inv; new_id (called by every clone on every copied object) changes the id of its object and nothing else; bounded stand-in: clone/export_leaf/values contracts (equal, detached, nothing shared, ids fresh or kept, edits do not propagate) checked at run time'
 
 def bounded_jobs(tier, seed):
     return [
